@@ -7,7 +7,9 @@ so every history runs in one genuine interpreter session whose state is exactly 
 one its prefix produced (ENGINE, DEF_STORE, `tmp_vars`/DefId/GlobalConstId counters,
 the tracing-state context variable, experimental flag, linecache ...).
 
-Pool (ONE module): plain function with temporaries live across basic blocks; PEP-695
+Pool (ONE module): plain function with two compiler temporaries live across a basic
+block boundary; a function with nine conditional expressions (nine temporaries, never
+two alive at once); PEP-695
 generic function + a caller instantiating it at int and float; function with a
 `@comptime` int parameter (monomorphised; as an entry point it fails ONLY at compile
 time: "Invalid entry point") + a caller instantiating it at two values (the same
@@ -65,10 +67,16 @@ def plain(x: int, y: int) -> int:
 
 @guppy
 def busy(x: int, y: int) -> int:
-    a = (x if x > y else y) + (y if y > 3 else x) + (1 if x > 2 else 2)
-    b = (a if a > y else y) + (y if y > a else x) + (3 if x > a else 4)
-    c = (b if a > b else a) + (a if y > b else b) + (5 if b > a else 6)
-    return a + b + c
+    a = x if x > y else y
+    b = y if y > 3 else x
+    c = 1 if a > b else 2
+    d = a if c > y else b
+    e = b if d > a else c
+    f = 3 if e > d else 4
+    g = d if f > e else e
+    i = e if g > f else f
+    j = 5 if i > g else 6
+    return a + b + c + d + e + f + g + i + j
 
 
 @guppy
@@ -184,25 +192,36 @@ def hist_str(h) -> str:
 
 # ---------------------------------------------------------------- canonical text
 def canonical(pkg) -> list[str]:
-    """Canonical text lines of a compiled package (see module docstring)."""
+    """Canonical text lines of a compiled package (see module docstring).  Every node
+    / edge line carries a derived tag `@<module-level item>@` (the function the node
+    lives in; an edge is tagged by its source node) used only to attribute differences."""
     lines = []
     seen: dict[str, str] = {}
     for mi, h in enumerate(pkg.modules):
         d = json.loads(h._to_serial().model_dump_json())
+        nodes = d["nodes"]
         meta = d.get("metadata") or []
-        for i, n in enumerate(d["nodes"]):
+        for i, n in enumerate(nodes):
             nm = n.get("name")
-            if n.get("op") in ("FuncDefn", "FuncDecl") and isinstance(nm, str):
-                m = _GLOBAL_ID.match(nm)
-                if m:
-                    if nm not in seen:
-                        seen[nm] = f"{m.group(1)}.#{len(seen)}"
-                    n = dict(n, name=seen[nm])
+            if n.get("op") in ("FuncDefn", "FuncDecl") and isinstance(nm, str) and _GLOBAL_ID.match(nm):
+                if nm not in seen:
+                    seen[nm] = f"{_GLOBAL_ID.match(nm).group(1)}.#{len(seen)}"
+                nodes[i] = dict(n, name=seen[nm])
+        owner: list[str] = []
+        for i, n in enumerate(nodes):
+            par = n.get("parent", i)
+            if par == i:
+                owner.append("<root>")
+            elif nodes[par].get("parent", par) == par:
+                owner.append(str(n.get("name") or n.get("op")))
+            else:
+                owner.append(owner[par] if par < i else "<forward-parent>")
+        for i, n in enumerate(nodes):
             md = meta[i] if i < len(meta) else None
-            lines.append(f"m{mi} n{i} " + json.dumps(n, sort_keys=True)
+            lines.append(f"m{mi} n{i} @{owner[i]}@ " + json.dumps(n, sort_keys=True)
                          + (" META " + json.dumps(md, sort_keys=True) if md else ""))
         for e in d["edges"]:
-            lines.append(f"m{mi} e " + json.dumps(e))
+            lines.append(f"m{mi} e @{owner[e[0][0]]}@ " + json.dumps(e))
         lines.append(f"m{mi} entrypoint {d.get('entrypoint')} version {d.get('version')}")
     lines.append("extensions " + json.dumps([[e.name, str(e.version)] for e in pkg.extensions]))
     return lines
@@ -267,6 +286,9 @@ def observe(op: int, full: bool) -> dict:
     return obs
 
 
+_TAG = re.compile(r"^m\d+ (?:n\d+|e) @(.*?)@ ")
+
+
 def _diff(ref: dict, obs: dict) -> dict:
     a, b = ref["text"], obs["text"]
     d: dict = {"ref_kind": ref["kind"], "ref_title": ref.get("title", ""), "n_ref": len(a), "n_got": len(b)}
@@ -278,8 +300,18 @@ def _diff(ref: dict, obs: dict) -> dict:
         d.update(line=min(len(a), len(b)), ref_line="<end>" if len(a) <= len(b) else a[len(b)][:400],
                  got_line="<end>" if len(b) <= len(a) else b[len(a)][:400])
     if ref["kind"] == "ok" and obs["kind"] == "ok":
-        na = [x for x in a if " e " not in x[:8]]
-        nb = [x for x in b if " e " not in x[:8]]
+        # which module-level items (functions) differ, and how
+        def group(lines):
+            g: dict[str, list] = {}
+            for x in lines:
+                m = _TAG.match(x)
+                g.setdefault(m.group(1) if m else "<package>", []).append(x)
+            return g
+        ga, gb = group(a), group(b)
+        funcs = sorted(k for k in set(ga) | set(gb) if ga.get(k) != gb.get(k))
+        d["where"] = funcs
+        na = [x for x in a if not x.split(" ", 2)[1] == "e"]
+        nb = [x for x in b if not x.split(" ", 2)[1] == "e"]
         if na == nb:
             d["cls"] = "same-nodes-different-wiring"
         elif sorted(_strip_idx(x) for x in na) == sorted(_strip_idx(x) for x in nb):
@@ -382,8 +414,12 @@ def run(ctx) -> dict:
             mism += 1
             d = obs.get("diff") or {}
             cls = d.get("cls", "?")
+            if "where" in d:      # HUGR differs: key on the function(s) whose HUGR differs
+                key = f"history-dependent:hugr:{'+'.join(d['where'])}:{cls}"
+            else:                 # outcome / diagnostic differs: key on the definition
+                key = f"history-dependent:outcome:{name}:{cls}"
             ctx.violation(
-                f"history-dependent:{what}:{name}:{cls}",
+                key,
                 f"{op_str(op)} after history {hist_str(h[:-1])} differs from the fresh-session result "
                 f"({cls}; first difference at canonical line {d.get('line')}: fresh `{str(d.get('ref_line'))[:160]}` "
                 f"vs `{str(d.get('got_line'))[:160]}`)",
